@@ -11,6 +11,7 @@ import (
 	"sort"
 	"strconv"
 	"strings"
+	"time"
 
 	"verif/mc/engine"
 	"verif/mc/fixture"
@@ -32,6 +33,10 @@ type C03Case struct {
 }
 
 var c03Items = []string{"f5000", "f0", "dir", "symlink", "f1", "f1023", "f1024", "config", "ghost", "big", "mut", "disklink"}
+
+// c03FracItems: entries whose times are not whole seconds (explicit entry mtimes; a tree whose directories and
+// files have fractional on-disk mtimes): the times a package states about its entries must be the entries' times.
+var c03FracItems = []string{"frac-file", "frac-dir", "frac-link", "frac-tree", "frac-config"}
 
 var c03Names = map[string]string{"plain": "data.bin", "space": "with space.bin", "percent": "100%s_done%d.bin", "hash": "#hash.bin", "backslash": `back\slash.bin`, "unicode": "ünï.bin"}
 var c03NameOrder = []string{"plain", "space", "percent", "hash", "backslash", "unicode"}
@@ -67,6 +72,16 @@ func c03Entry(item string, i int, nameClass string) model.Entry {
 		return model.Entry{Src: "etc/app.conf", Dst: base + name, Type: "config"}
 	case "ghost":
 		return model.Entry{Dst: base + name, Type: "ghost"}
+	case "frac-file":
+		return model.Entry{Src: "share/f1024.bin", Dst: base + name, MTime: EntryMTime.Add(750 * time.Millisecond)}
+	case "frac-config":
+		return model.Entry{Src: "etc/app.conf", Dst: base + name, Type: "config", MTime: EntryMTime.Add(500 * time.Millisecond)}
+	case "frac-dir":
+		return model.Entry{Dst: base + name, Type: "dir", MTime: EntryMTime.Add(999 * time.Millisecond)}
+	case "frac-link":
+		return model.Entry{Src: "/usr/bin/target", Dst: base + name, Type: "symlink", MTime: EntryMTime.Add(600 * time.Millisecond)}
+	case "frac-tree":
+		return model.Entry{Src: "frac", Dst: base + name, Type: "tree"}
 	}
 	panic(item)
 }
@@ -124,6 +139,32 @@ func init() {
 						if !yield(C03Case{Shape: []string{a, b}, Setting: s}) {
 							return
 						}
+					}
+				}
+			}
+			// times that are not whole seconds: entry mtimes, on-disk tree times, the package mtime itself
+			for _, s := range []Setting{{Name: "default"}, {Name: "mtime=F", MTime: "F"}, {Name: "mtime=G", MTime: "G"}} {
+				for i, a := range c03FracItems {
+					if !yield(C03Case{Shape: []string{a}, Setting: s}) {
+						return
+					}
+					for _, b := range c03FracItems[i+1:] {
+						if !yield(C03Case{Shape: []string{a, b}, Setting: s}) {
+							return
+						}
+					}
+					if !yield(C03Case{Shape: []string{a, "f5000"}, Setting: s}) {
+						return
+					}
+				}
+				if s.MTime != "" {
+					for _, it := range []string{"f5000", "dir", "symlink", "config"} {
+						if !yield(C03Case{Shape: []string{it}, Setting: s}) {
+							return
+						}
+					}
+					if !yield(C03Case{Shape: nil, Setting: s}) {
+						return
 					}
 				}
 			}
